@@ -45,5 +45,6 @@ CHECKS = {
     "C10": lookup("C10"),
     "C13": lookup("C13"),
     "C14": lookup("C14"),
+    "C19": lookup("C19"),
     "C18": lookup("C18"),
 }
